@@ -12,6 +12,8 @@ _counter = itertools.count()
 PRELUDE = r'''
 from dataclasses import dataclass, field, fields, is_dataclass
 from typing import Optional, List, Dict, NamedTuple, Union
+from typing_extensions import Self
+import base64
 from mashumaro import DataClassDictMixin
 from mashumaro.mixins.msgpack import DataClassMessagePackMixin
 from mashumaro.config import (BaseConfig, ADD_DIALECT_SUPPORT, TO_DICT_ADD_OMIT_NONE_FLAG,
@@ -56,8 +58,14 @@ def make_dialect(i, spec, drop=()):
     ss = {Tag: {"serialize": (lambda v, i=i: i), "deserialize": (lambda v, i=i: Tag(i))}}
     if spec.get("int") == "dict":
         ss[int] = {"serialize": (lambda v, i=i: v + 100 * i), "deserialize": (lambda v, i=i: v - 100 * i)}
+    if spec.get("int") == "ser":          # one direction only: the other one comes from a lower-priority source
+        ss[int] = {"serialize": (lambda v, i=i: v + 100 * i)}
+    if spec.get("int") == "de":
+        ss[int] = {"deserialize": (lambda v, i=i: v - 100 * i)}
     if spec.get("int") == "strat":
         ss[int] = IntPlus(1000 * i)
+    if spec.get("bytes") == "de":         # serialize: the format's own (native bytes in MessagePack) or the built-in
+        ss[bytes] = {"deserialize": (lambda v: bytes(v) if isinstance(v, (bytes, bytearray)) else base64.decodebytes(v.encode()))}
     if spec.get("str"):
         ss[str] = {"serialize": str.upper, "deserialize": str.lower}
     ns["serialization_strategy"] = ss
@@ -80,6 +88,10 @@ else:                                          # ("mod", i, ((option, replacemen
 def make_config(cfg, support=True):
     ns = {"code_generation_options": [FLAGS[f] for f in cfg.get("flags", ["dialect"])],
           "serialization_strategy": dict(TAG0)}
+    if SPEC.get("lazy"):
+        ns["lazy_compilation"] = True
+    if SPEC.get("cfg_int"):               # a class-level strategy below every dialect
+        ns["serialization_strategy"][int] = {"serialize": (lambda v: v + 7), "deserialize": (lambda v: v - 7)}
     for o in ("omit_none", "omit_default", "serialize_by_alias", "namedtuple_as_dict"):
         if cfg.get(o) is not None:
             ns[o] = cfg[o]
@@ -99,12 +111,16 @@ FIELD_SRC = {
     "inner": "Inner = field(default_factory=Inner)",
     "optstr": "Optional[str] = None",
     "bytes": "bytes = b'ab'",
+    "plain": "Plain = field(default_factory=Plain)",
+    "selfopt": "Optional[Self] = None",
+    "selflist": "List[Self] = field(default_factory=list)",
 }
 
 
 def class_src(name: str, cspec: dict) -> str:
     base = cspec.get("base") or cspec.get("mixin") or "DataClassDictMixin"
-    lines = ["@dataclass", f"class {name}({base}):", f"    t_{name}: Tag = field(default_factory=Tag)"]
+    head = f"class {name}:" if cspec.get("plain_dataclass") else f"class {name}({base}):"
+    lines = ["@dataclass", head, f"    t_{name}: Tag = field(default_factory=Tag)"]
     for f, kind in cspec["fields"]:
         lines.append(f"    {f}: " + FIELD_SRC[kind].format(f=f))
     if cspec.get("config") is not None:
@@ -164,10 +180,16 @@ class Family:
                 v = self.ns["NT"](*v)
             elif kind == "inner":
                 v = self.instance("Inner", v)
+            elif kind == "plain":
+                v = self.instance("Plain", v)
             elif kind == "list":
                 v = list(v)
             elif kind == "bytes":
                 v = bytes.fromhex(v)
+            elif kind == "selfopt":
+                v = None if v is None else self.instance(name, v)
+            elif kind == "selflist":
+                v = [self.instance(name, x) for x in v]
             kw[f] = v
         return self.ns[name](**kw)
 
